@@ -193,6 +193,8 @@ def small_child(arg):
     for name in arg["names"]:
         fn = getattr(b, name, None) or getattr(a, name, None) or getattr(sys.modules[pkg], name)
         out[name] = observe(fn)
+        if name == "n0":  # the same questions asked of a modifier clone of the root
+            out["n0 (modifier clone)"] = observe(fn.force_local())
     return out
 
 
@@ -213,7 +215,7 @@ def run_small(case, out, fail):
                 continue
             out["obs"]["graphs"] += 1
             label = "graph n=%d kinds %s edges %s form %s" % (n, ["memento"] + list(kinds), edges, form)
-            for name, w in want.items():
+            for name, w in list(want.items()) + [("n0 (modifier clone)", want["n0"])]:
                 g = got[name]
                 out["obs"]["functions_compared"] += 1
                 if g["transitive"] != w["transitive"]:
@@ -225,9 +227,10 @@ def run_small(case, out, fail):
             # graph edges, from the root: every memento function reachable from it contributes its first-level links
             root_reach = ["n0"] + want["n0"]["transitive"]
             want_edges = sorted([u, v] for u in root_reach for v in want[u]["first"])
-            if got["n0"]["df_edges"] != want_edges:
-                fail("dependency graph edges differ from 'reaches without passing through another memento function'",
-                     "%s: df() of n0 has %s, expected %s" % (label, got["n0"]["df_edges"], want_edges))
+            for who in ("n0", "n0 (modifier clone)"):
+                if got[who]["df_edges"] != want_edges:
+                    fail("dependency graph edges differ from 'reaches without passing through another memento function'",
+                         "%s: df() of %s has %s, expected %s" % (label, who, got[who]["df_edges"], want_edges))
             if any(set(w["transitive"]) - set(w["direct"]) for w in want.values()):
                 out["nontrivial"].append("%s/%s/%s/%d" % (n, form, "".join(k[0] for k in kinds), mask))
         out["sample"] = {"n": n, "form": form, "module_a": texts["a"].split("\n")[4:20]}
